@@ -156,6 +156,29 @@ func (h *hist2) checkIndexed() []Finding {
 		}
 	}
 	for i, s := range h.list {
+		if i > 12 {
+			break
+		}
+		far := h.pool[(i*5+3)%len(h.pool)]
+		for qi, q := range [][]model2d.Coord{{s[0], s[1]}, {s[1], s[0], s[1]}, {s[0], s[0]}, {s[0], s[1], s[1], s[0]}, {s[0], far}, {s[0], s[1], far}} {
+			var want []*seg
+			for _, u := range h.list {
+				all := true
+				for _, p := range q {
+					if p != u[0] && p != u[1] {
+						all = false
+					}
+				}
+				if all {
+					want = append(want, u)
+				}
+			}
+			if got := h.real.Find(q...); !sameSegSet(got, want) {
+				return h.fail("findn", fmt.Sprintf("Find with %d points (query shape %d) returned %d faces, %d current faces contain all of them", len(q), qi, len(got), len(want)))
+			}
+		}
+	}
+	for i, s := range h.list {
 		if i > 24 {
 			break
 		}
